@@ -46,6 +46,15 @@ func (st Style) inKeyword() string {
 	return ws[st.Rng.Intn(len(ws))] + "in" + ws[st.Rng.Intn(len(ws))]
 }
 
+// kwGap is optional white space between a directive keyword and its opening parenthesis
+// (never after @slot: there a blank makes the parenthesis text of the default slot)
+func (st Style) kwGap() string {
+	if st.Marks || st.Layout != NewlineLayout || st.Rng == nil {
+		return ""
+	}
+	return []string{"", "", "", "", " ", "\t", "\n", "  "}[st.Rng.Intn(8)]
+}
+
 func (st Style) sep(s string) string {
 	if st.Marks || st.Layout != NewlineLayout || st.Rng == nil {
 		return s
@@ -76,7 +85,7 @@ func printStmt(sb *strings.Builder, s Stmt, st Style) {
 	case Comment:
 		sb.WriteString("{{--" + st.open("c") + n.Body + "--}}" + st.close())
 	case Dump:
-		sb.WriteString("@dump(" + st.open("a") + st.pad())
+		sb.WriteString("@dump" + st.kwGap() + "(" + st.open("a") + st.pad())
 		for i, a := range n.Args {
 			if i > 0 {
 				sb.WriteString(st.sep(", "))
@@ -87,9 +96,9 @@ func printStmt(sb *strings.Builder, s Stmt, st Style) {
 	case If:
 		for i, c := range n.Conds {
 			if i == 0 {
-				sb.WriteString("@if(" + st.open("a") + st.pad())
+				sb.WriteString("@if" + st.kwGap() + "(" + st.open("a") + st.pad())
 			} else {
-				sb.WriteString("@elseif(" + st.open("a") + st.pad())
+				sb.WriteString("@elseif" + st.kwGap() + "(" + st.open("a") + st.pad())
 			}
 			sb.WriteString(Source(c, st))
 			sb.WriteString(st.pad() + st.pad() + ")" + st.close())
@@ -104,7 +113,7 @@ func printStmt(sb *strings.Builder, s Stmt, st Style) {
 		}
 		sb.WriteString("@end" + st.close())
 	case Each:
-		sb.WriteString("@each(" + st.open("a") + st.pad() + n.Var + st.inKeyword() + Source(n.Arr, st) + st.pad() + ")" + st.close() + st.open("b"))
+		sb.WriteString("@each" + st.kwGap() + "(" + st.open("a") + st.pad() + n.Var + st.inKeyword() + Source(n.Arr, st) + st.pad() + ")" + st.close() + st.open("b"))
 		sb.WriteString(PrintStmts(n.Body, st))
 		if n.Else != nil {
 			sb.WriteString("@else")
@@ -112,7 +121,7 @@ func printStmt(sb *strings.Builder, s Stmt, st Style) {
 		}
 		sb.WriteString("@end" + st.close())
 	case For:
-		sb.WriteString("@for(" + st.open("a") + st.pad())
+		sb.WriteString("@for" + st.kwGap() + "(" + st.open("a") + st.pad())
 		if n.Init != nil {
 			sb.WriteString(Join(append([]string{n.Init.Name, "="}, Tokens(n.Init.E, st)...), st))
 		} else if n.InitE != nil {
@@ -141,11 +150,11 @@ func printStmt(sb *strings.Builder, s Stmt, st Style) {
 	case Continue:
 		sb.WriteString("@continue")
 	case BreakIf:
-		sb.WriteString("@breakIf(" + st.open("a") + st.pad() + Source(n.E, st) + st.pad() + ")" + st.close())
+		sb.WriteString("@breakIf" + st.kwGap() + "(" + st.open("a") + st.pad() + Source(n.E, st) + st.pad() + ")" + st.close())
 	case ContinueIf:
-		sb.WriteString("@continueIf(" + st.open("a") + st.pad() + Source(n.E, st) + st.pad() + ")" + st.close())
+		sb.WriteString("@continueIf" + st.kwGap() + "(" + st.open("a") + st.pad() + Source(n.E, st) + st.pad() + ")" + st.close())
 	case Component:
-		sb.WriteString("@component(" + st.open("a") + st.name(n.Name))
+		sb.WriteString("@component" + st.kwGap() + "(" + st.open("a") + st.name(n.Name))
 		if n.Args != nil {
 			sb.WriteString(st.sep(", ") + Source(*n.Args, st))
 		}
@@ -175,16 +184,16 @@ func printStmt(sb *strings.Builder, s Stmt, st Style) {
 			sb.WriteString("@slot(" + st.open("a") + st.name(n.Name) + st.pad() + ")" + st.close())
 		}
 	case Reserve:
-		sb.WriteString("@reserve(" + st.open("a") + st.name(n.Name) + st.pad() + ")" + st.close())
+		sb.WriteString("@reserve" + st.kwGap() + "(" + st.open("a") + st.name(n.Name) + st.pad() + ")" + st.close())
 	case Use:
-		sb.WriteString("@use(" + st.open("a") + st.name(n.Name) + st.pad() + ")" + st.close())
+		sb.WriteString("@use" + st.kwGap() + "(" + st.open("a") + st.name(n.Name) + st.pad() + ")" + st.close())
 	case Insert:
 		if n.Block != nil {
-			sb.WriteString("@insert(" + st.open("a") + st.name(n.Name) + st.pad() + ")" + st.close() + st.open("b"))
+			sb.WriteString("@insert" + st.kwGap() + "(" + st.open("a") + st.name(n.Name) + st.pad() + ")" + st.close() + st.open("b"))
 			sb.WriteString(PrintStmts(n.Block, st))
 			sb.WriteString("@end" + st.close())
 		} else {
-			sb.WriteString("@insert(" + st.open("a") + st.name(n.Name) + st.sep(", ") + Source(n.E, st) + st.pad() + ")" + st.close())
+			sb.WriteString("@insert" + st.kwGap() + "(" + st.open("a") + st.name(n.Name) + st.sep(", ") + Source(n.E, st) + st.pad() + ")" + st.close())
 		}
 	}
 }
